@@ -73,7 +73,16 @@ class Ctx:
         if k < len(self.prefix):
             i = self.prefix[k]
         else:
-            feas = [j for j, o in enumerate(options) if self.solver.feasible(o)]
+            feas = None
+            if len(options) > 4:
+                # fast path: the path condition often pins the choice (e.g. a dict lookup after the key was fixed)
+                if self.solver.check() == "sat":
+                    m = self.solver.model()
+                    tr = [j for j, o in enumerate(options) if z3.is_true(m.eval(o, model_completion=True))]
+                    if len(tr) == 1 and self.solver.check(z3.Not(options[tr[0]])) == "unsat":
+                        feas = tr
+            if feas is None:
+                feas = [j for j, o in enumerate(options) if self.solver.feasible(o)]
             if not feas:
                 raise PathEnd("infeasible")
             i = feas[0]
@@ -94,6 +103,12 @@ class Ctx:
     def assume(self, f):
         self.solver.add(z3.simplify(f) if z3.is_expr(f) else z3.BoolVal(bool(f)))
 
+    def assume_feasible(self, f):
+        """assume f; end the path if that makes the path condition contradictory"""
+        self.assume(f)
+        if self.solver.check() == "unsat":
+            raise PathEnd("infeasible")
+
     # ---- obligations
     def oblige(self, name, goal, kind="post", site="", detail=""):
         """pc ⇒ goal must be valid"""
@@ -109,7 +124,12 @@ class Ctx:
         st = "undecided" if undecided else ("proved" if ok else "refuted")
         model = None
         if st == "refuted":
-            model = self.witness()
+            r = self.solver.check()
+            if r == "unsat":
+                st = "proved"  # the path condition is contradictory: vacuous
+                detail = "(vacuous: infeasible path) " + detail
+            elif r == "sat":
+                model = model_to_dict(self.solver.model())
         ob = Obligation(name, kind, site, st, "structural", 0.0, model, detail)
         self.obligations.append(ob)
         return ob
